@@ -37,6 +37,9 @@ stream("C06", "Short-read sources, Read sizes incl. 0, Write partitions at the s
 stream("C09", "Every strict prefix of small streams (boundary-focused + random for larger) must end in an error; Reader model (Coq, extracted) compared with the Go Reader on streams truncated before the end marker.", "exhaustive cut positions for small streams + extracted Coq Reader model vs Go", "6/C09")
 stream("C11", "All ranges x jobs 1..8 on streams of up to 12 blocks against the exact slice, listener check that skipped blocks are not decoded; Reader model (Coq, extracted) with from/to compared with the Go Reader.", "exhaustive small ranges + extracted Coq Reader model vs Go", "6/C11")
 
+stream("C08", "Fault at every call index of the sink and of the source (transient, permanent, Close), retries of Close, with the outcome rules of the property evaluated on the Go objects; bit stream fault programs and Writer sequences with an injected task failure compared with the extracted Coq models.", "exhaustive fault-point enumeration + extracted Coq OutBS/InBS/Writer models vs Go", "6/C08")
+stream("C17", "Random call programs on Writer and Reader checked against the lifecycle rules, and against the extracted Coq Writer/Reader state machines result by result.", "random API call programs vs extracted Coq state machines", "6/C17")
+
 NOT_YET = {}
 def main():
     props = [json.loads(l)["id"] for l in open(os.path.join(ROOT, "properties.jsonl"))]
